@@ -26,7 +26,7 @@ def alphabet(shape):
         return [['adjust'], ['adjust_nf'], ['alloc', 'a'], ['transact', 'b'], ['rebal', 'a', 0.5], ['close', 'b'], ['flatten'], ['next'], ['update']]
     if shape == 'S3':
         return [['adjust'], ['alloc', 'sub'], ['alloc', 'c'], ['alloc', 'a', 'sub'], ['transact', 'b', 'sub'], ['rebal', 'sub', 0.25], ['close', 'sub'],
-                ['flatten'], ['next'], ['transact', 'c']]
+                ['flatten'], ['next'], ['transact', 'c'], ['flatten', 'sub']]
     if shape == 'S4':
         return [['adjust'], ['alloc', 'sub1'], ['transact', 'a', 'sub2'], ['rebal', 'sub2', 0.5], ['close', 'sub1'], ['flatten'], ['next'], ['alloc', 'a', 'sub1']]
     raise ValueError(shape)
@@ -44,7 +44,7 @@ WITNESS_CAP = {'quick': 120, 'thorough': 400}
 COMPILED_REPLAY = {'quick': False, 'thorough': True}
 
 
-WMULT = {('alloc', 'sub'), ('rebal', 'sub'), ('alloc', 'sub1'), ('rebal', 'sub2'), ('alloc', 'sub2'), ('rebal', 'sub1')}
+WMULT = {('alloc', 'mid'), ('alloc', 'leaf'), ('rebal', 'mid'), ('rebal', 'leaf'), ('alloc', 'sub'), ('rebal', 'sub'), ('alloc', 'sub1'), ('rebal', 'sub2'), ('alloc', 'sub2'), ('rebal', 'sub1')}
 
 
 def _cfgs(shape, seq, integer, tier):
@@ -52,7 +52,12 @@ def _cfgs(shape, seq, integer, tier):
     nsz = sum(1 for op in seq if op[0] in SIZING)
     nwm = sum(1 for op in seq if tuple(op[:2]) in WMULT)
     if nwm > 1 or (nwm and integer):
-        return []          # two weight-multiplying operations compose to degree > 3; whole-unit sizing below a sub-allocation stalls z3
+        return []
+    if nwm:
+        # the sub-strategy's child weights must still be concrete when capital is pushed through them (amount * weight stays linear)
+        k = [i for i, op in enumerate(seq) if tuple(op[:2]) in WMULT][0]
+        if any(op[0] not in ('adjust', 'adjust_nf', 'update', 'next') for op in seq[:k]):
+            return []          # two weight-multiplying operations compose to degree > 3; whole-unit sizing below a sub-allocation stalls z3
     if nsz > 1 and (integer or tier == 'quick'):
         return []          # two sizing searches in one sequence multiply the path count (thorough, fractional only)
     fees = [['prop', 0.001953125]] if nsz else [['uf']]
@@ -86,6 +91,18 @@ def plan(tier):
             for seq in sel:
                 for cfg in _cfgs(shape, seq, integer, tier):
                     tasks.append(dict(harness='ops', cfg=cfg, opts=opts))
+    # zero-price episode: a held position priced at exactly 0 on two consecutive dates, then recovering (4 dates, trailing date changes)
+    zp = [(['transact', 'b'], ['next']), (['next'], ['transact', 'b']), (['next'], ['adjust']), (['alloc', 'a'], ['next']), (['next'], ['close', 'b']),
+          (['next'], ['next'])]
+    for seq in zp:
+        for integer in (0, 1):
+            for cfg in _cfgs('S1', seq, integer, tier)[:1]:
+                cfg.update(pgrid='zero', ndates=4, tail_next=2)
+                tasks.append(dict(harness='ops', cfg=cfg, opts=opts))
+    for seq in ((['transact', 'c'], ['next']), (['next'], ['transact', 'b', 'sub'])):
+        for cfg in _cfgs('S3', seq, 0, tier)[:1]:
+            cfg.update(pgrid='zero', ndates=4, tail_next=2)
+            tasks.append(dict(harness='ops', cfg=cfg, opts=opts))
     # insolvent / degenerate pre-states (capital from 0): bankruptcy liquidation and zero-value branches
     ins = [(['transact', 'b'], ['next']), (['next'], ['transact', 'b']), (['adjust'], ['flatten']), (['transact', 'b'], ['close', 'b']),
            (['adjust_nf'], ['next']), (['next'], ['next'])]
